@@ -71,6 +71,8 @@ pub enum Case {
     Convert { payload: u16, clone_first: bool },
     Madvise { pages: u8, off: u8, len: u8, advice: u8 },
     Wait { code: u8 },
+    /// metadata() of files of every type, all fields, against statx(2) on the same object.
+    Meta { target: u8, mode: u16, size: u16 },
     /// Operations on buffers from a ReadBufPool.
     PoolIo { dgram: bool, peek: bool, len: u16, pool_log2: u8, file_off: Option<u16> },
 }
@@ -221,6 +223,7 @@ impl Property for C13 {
             2 => (1u16..5000, any::<bool>()).prop_map(|(payload, clone_first)| Case::Convert { payload, clone_first }),
             2 => (1u8..6, 0u8..6, 0u8..7, 0u8..5).prop_map(|(pages, off, len, advice)| Case::Madvise { pages, off, len, advice }),
             1 => any::<u8>().prop_map(|code| Case::Wait { code }),
+            2 => (0u8..5, 0u16..0o1000, 0u16..9000).prop_map(|(target, mode, size)| Case::Meta { target, mode, size }),
             3 => (any::<bool>(), any::<bool>(), 1u16..4000, 0u8..3, proptest::option::weighted(0.5, 0u16..6000)).prop_map(|(dgram, peek, len, pool_log2, file_off)| Case::PoolIo { dgram, peek, len, pool_log2, file_off }),
         ]
         .boxed()
@@ -253,6 +256,7 @@ impl Property for C13 {
             Case::Convert { payload, clone_first } => run_convert(&mut real, *payload, *clone_first, &mut classes),
             Case::Madvise { pages, off, len, advice } => run_madvise(&mut real, *pages, *off, *len, *advice, &mut classes),
             Case::Wait { code } => run_wait(&mut real, *code, &mut classes),
+            Case::Meta { target, mode, size } => run_meta(&mut real, *target, *mode, *size, &mut classes),
             Case::PoolIo { dgram, peek, len, pool_log2, file_off } => run_pool_io(&mut real, *dgram, *peek, *len, *pool_log2, *file_off, &mut classes),
         };
         if let Err(e) = res {
@@ -287,6 +291,7 @@ impl Property for C13 {
             Case::Convert { .. } => "convert",
             Case::Madvise { .. } => "madvise",
             Case::Wait { .. } => "wait",
+            Case::Meta { .. } => "metadata",
             Case::PoolIo { .. } => "pool-io",
         };
         ctx.class(fam);
@@ -1347,6 +1352,65 @@ fn run_sockopt(real: &mut Real, which: u8, value: u32, tcp: bool, classes: &mut 
         }
         _ => set_then_read_bool!(option::KeepAlive, libc::SOL_SOCKET, libc::SO_KEEPALIVE, "SO_KEEPALIVE"),
     }
+    // A second round through the synchronous flavour of the API and the
+    // remaining option types.
+    {
+        use std::os::fd::BorrowedFd;
+        let bfd = unsafe { BorrowedFd::borrow_raw(fd) };
+        match value % 5 {
+            0 => {
+                a10::net::sync_set_socket_option::<option::ReuseAddress>(bfd, on).map_err(|e| format!("failure-vs-success:sync set SO_REUSEADDR: {e}"))?;
+                let raw = getsockopt_int(fd, libc::SOL_SOCKET, libc::SO_REUSEADDR);
+                let back = a10::net::sync_socket_option::<option::ReuseAddress>(bfd).map_err(|e| format!("failure-vs-success:sync get SO_REUSEADDR: {e}"))?;
+                if (raw != 0) != on || back != on {
+                    return Err(format!("sockopt:sync SO_REUSEADDR: set {on} through sync_set_socket_option, getsockopt(2) reads {raw}, sync_socket_option reads {back}"));
+                }
+            }
+            1 => {
+                let v = 4096 + value % 50_000;
+                a10::net::sync_set_socket_option::<option::SendBuf>(bfd, v).map_err(|e| format!("failure-vs-success:sync set SO_SNDBUF: {e}"))?;
+                let raw = getsockopt_int(fd, libc::SOL_SOCKET, libc::SO_SNDBUF);
+                let back = a10::net::sync_socket_option::<option::SendBuf>(bfd).map_err(|e| format!("failure-vs-success:sync get SO_SNDBUF: {e}"))?;
+                if back as i64 != raw as i64 {
+                    return Err(format!("sockopt:sync SO_SNDBUF: sync_socket_option reads {back}, getsockopt(2) reads {raw}"));
+                }
+            }
+            2 => {
+                // SO_INCOMING_CPU: Option<u32>.
+                let cpu = value % 2;
+                let a = real.block_on(s.set_socket_option::<option::IncomingCpu>(cpu))?;
+                let twin = unsafe { libc::socket(libc::AF_INET, if tcp { libc::SOCK_STREAM } else { libc::SOCK_DGRAM } | libc::SOCK_CLOEXEC, 0) };
+                let ci = cpu as i32;
+                let r = unsafe { libc::setsockopt(twin, libc::SOL_SOCKET, libc::SO_INCOMING_CPU, (&raw const ci).cast(), 4) };
+                let want = getsockopt_int(twin, libc::SOL_SOCKET, libc::SO_INCOMING_CPU);
+                unsafe { libc::close(twin) };
+                same_outcome("set SO_INCOMING_CPU", &a, &if r < 0 { Err(last_err()) } else { Ok(()) })?;
+                let raw = getsockopt_int(fd, libc::SOL_SOCKET, libc::SO_INCOMING_CPU);
+                let back = real.block_on(s.socket_option::<option::IncomingCpu>())?.map_err(|e| format!("failure-vs-success:get SO_INCOMING_CPU: {e}"))?;
+                let back_raw = back.map_or(-1i64, |c| c as i64);
+                if raw != want || back_raw != raw as i64 {
+                    return Err(format!("sockopt:SO_INCOMING_CPU: after setting {cpu}: getsockopt(2) reads {raw} (twin through setsockopt(2): {want}), a10 reads {back:?}"));
+                }
+            }
+            3 if tcp => {
+                classes.push("tcp-level");
+                let a = real.block_on(s.set_socket_option::<option::TcpCork>(on))?.map_err(|e| format!("failure-vs-success:set TCP_CORK: {e}"));
+                a?;
+                let raw = getsockopt_int(fd, libc::IPPROTO_TCP, libc::TCP_CORK);
+                let back = real.block_on(s.socket_option::<option::TcpCork>())?.map_err(|e| format!("failure-vs-success:get TCP_CORK: {e}"))?;
+                if (raw != 0) != on || back != on {
+                    return Err(format!("sockopt:TCP_CORK: set {on} through a10, getsockopt(2) reads {raw}, a10 reads {back}"));
+                }
+            }
+            _ => {
+                let back = real.block_on(s.socket_option::<option::SendLowWater>())?.map_err(|e| format!("failure-vs-success:get SO_SNDLOWAT: {e}"))?;
+                let raw = getsockopt_int(fd, libc::SOL_SOCKET, libc::SO_SNDLOWAT);
+                if back as i64 != raw as i64 {
+                    return Err(format!("sockopt:SO_SNDLOWAT: a10 reads {back}, getsockopt(2) reads {raw}"));
+                }
+            }
+        }
+    }
     classes.push("sockopt");
     Ok(())
 }
@@ -1824,6 +1888,105 @@ fn run_pool_io(real: &mut Real, dgram: bool, peek: bool, len: u16, pool_log2: u8
         if off != 0 {
             classes.push("offset");
         }
+    }
+    Ok(())
+}
+
+fn run_meta(real: &mut Real, target: u8, mode: u16, size: u16, classes: &mut Vec<&'static str>) -> Result<(), String> {
+    use std::os::unix::fs::{MetadataExt, PermissionsExt};
+    let scratch = Scratch::new("meta");
+    let p = scratch.dir.join("obj");
+    let raw_fd: OwnedFd;
+    // The object, opened by a10 or (where a10 cannot open it) adopted.
+    let fa: AsyncFd = match target % 5 {
+        0 | 1 => {
+            std::fs::write(&p, pattern(2, size as usize)).map_err(|e| format!("infra:{e}"))?;
+            std::fs::set_permissions(&p, std::fs::Permissions::from_mode(0o400 | mode as u32)).map_err(|e| format!("infra:{e}"))?;
+            classes.push("file-with-mode");
+            real.block_on(OpenOptions::new().read().open(real.sq.clone(), p.clone()))?.map_err(|e| format!("infra:open: {e}"))?
+        }
+        2 => {
+            std::fs::create_dir(&p).map_err(|e| format!("infra:{e}"))?;
+            std::fs::set_permissions(&p, std::fs::Permissions::from_mode(0o500 | mode as u32)).map_err(|e| format!("infra:{e}"))?;
+            classes.push("directory");
+            real.block_on(OpenOptions::new().read().open(real.sq.clone(), p.clone()))?.map_err(|e| format!("infra:open dir: {e}"))?
+        }
+        3 => {
+            // A FIFO (opened read-write so that open does not block).
+            if unsafe { libc::mkfifo(cstr(&p).as_ptr(), 0o600 | mode as u32) } != 0 {
+                return Err("infra:mkfifo".into());
+            }
+            classes.push("fifo");
+            real.block_on(OpenOptions::new().read().write().open(real.sq.clone(), p.clone()))?.map_err(|e| format!("infra:open fifo: {e}"))?
+        }
+        _ => {
+            // A socket.
+            classes.push("socket-object");
+            real.block_on(a10::net::socket(real.sq.clone(), Domain::UNIX, Type::STREAM, None))?.map_err(|e| format!("infra:socket: {e}"))?
+        }
+    };
+    let Some(bfd) = fa.as_fd() else { return Err("infra:no raw fd".into()) };
+    raw_fd = bfd.try_clone_to_owned().map_err(|e| format!("infra:{e}"))?;
+    let m = real.block_on(fa.metadata())?.map_err(|e| format!("failure-vs-success:metadata: {e}"))?;
+    // Reference: fstat through std on the same open file description.
+    let f = std::fs::File::from(raw_fd);
+    let st = f.metadata().map_err(|e| format!("infra:{e}"))?;
+    let ft = m.file_type();
+    let mut diffs = Vec::new();
+    if m.len() != st.len() {
+        diffs.push(format!("len {} vs st_size {}", m.len(), st.len()));
+    }
+    let kind = (st.mode() & libc::S_IFMT) as u32;
+    let checks = [
+        ("is_file", m.is_file(), kind == libc::S_IFREG),
+        ("is_dir", m.is_dir(), kind == libc::S_IFDIR),
+        ("is_symlink", m.is_symlink(), kind == libc::S_IFLNK),
+        ("file_type.is_file", ft.is_file(), kind == libc::S_IFREG),
+        ("file_type.is_dir", ft.is_dir(), kind == libc::S_IFDIR),
+        ("file_type.is_socket", ft.is_socket(), kind == libc::S_IFSOCK),
+        ("file_type.is_named_pipe", ft.is_named_pipe(), kind == libc::S_IFIFO),
+        ("file_type.is_block_device", ft.is_block_device(), kind == libc::S_IFBLK),
+        ("file_type.is_character_device", ft.is_character_device(), kind == libc::S_IFCHR),
+    ];
+    for (name, got, want) in checks {
+        if got != want {
+            diffs.push(format!("{name} is {got}, st_mode {:o} says {want}", st.mode()));
+        }
+    }
+    let pm = m.permissions();
+    let bits = [
+        ("owner_can_read", pm.owner_can_read(), 0o400),
+        ("owner_can_write", pm.owner_can_write(), 0o200),
+        ("owner_can_execute", pm.owner_can_execute(), 0o100),
+        ("group_can_read", pm.group_can_read(), 0o040),
+        ("group_can_write", pm.group_can_write(), 0o020),
+        ("group_can_execute", pm.group_can_execute(), 0o010),
+        ("others_can_read", pm.others_can_read(), 0o004),
+        ("others_can_write", pm.others_can_write(), 0o002),
+        ("others_can_execute", pm.others_can_execute(), 0o001),
+    ];
+    for (name, got, bit) in bits {
+        if got != (st.mode() & bit != 0) {
+            diffs.push(format!("permissions().{name}() is {got}, st_mode is {:o}", st.mode() & 0o7777));
+        }
+    }
+    if m.block_size() as u64 != st.blksize() {
+        diffs.push(format!("block_size {} vs st_blksize {}", m.block_size(), st.blksize()));
+    }
+    let ts = |t: std::time::SystemTime| t.duration_since(std::time::UNIX_EPOCH).map(|d| (d.as_secs() as i64, d.subsec_nanos() as i64)).unwrap_or((-1, -1));
+    if ts(m.modified()) != (st.mtime(), st.mtime_nsec()) {
+        diffs.push(format!("modified {:?} vs st_mtime {:?}", ts(m.modified()), (st.mtime(), st.mtime_nsec())));
+    }
+    if ts(m.accessed()) != (st.atime(), st.atime_nsec()) {
+        diffs.push(format!("accessed {:?} vs st_atime {:?}", ts(m.accessed()), (st.atime(), st.atime_nsec())));
+    }
+    if let Ok(created) = st.created() {
+        if ts(m.created()) != ts(created) {
+            diffs.push(format!("created {:?} vs statx btime {:?}", ts(m.created()), ts(created)));
+        }
+    }
+    if !diffs.is_empty() {
+        return Err(format!("metadata: a10's metadata() differs from fstat/statx on the same object: {}", diffs.join("; ")));
     }
     Ok(())
 }
